@@ -52,6 +52,8 @@ istream& Signal::operator >> (istream& is, Basis& basis)
 	basis = Circular; break;
       case Elliptical:
 	basis = Elliptical; break;
+      default:
+	is.setstate (ios::failbit); break;
       }
     }
 
